@@ -215,6 +215,19 @@ pub fn par_map_fil_col_vec""",
         [],
         "min_chunk_size rounds down instead of up: turned out to be equivalent for the properties (max_num_threads <= len, so the quotient is >= 1; only the chunk size changes) - the checks must stay silent",
     ),
+    "own_hashmap_into_par_drops_first": (
+        "src/into/into_par.rs",
+        """        type ConIter = ConIterOfIter<(K, V), std::collections::hash_map::IntoIter<K, V>>;
+        fn into_par(self) -> ParEmpty<Self::ConIter> {
+            ParEmpty::new(self.into_iter().into_con_iter())""",
+        """        type ConIter = ConIterOfIter<(K, V), std::collections::hash_map::IntoIter<K, V>>;
+        fn into_par(self) -> ParEmpty<Self::ConIter> {
+            let mut iter = self.into_iter();
+            let _ = iter.next();
+            ParEmpty::new(iter.into_con_iter())""",
+        ["C01", "C04"],
+        "HashMap::into_par loses the first entry (a source kind covered only by the plain-type probes)",
+    ),
     "c07_colx_drops_empty_run": (
         "src/core/map_fil_col_x.rs",
         "    output.append(vectors);",
